@@ -305,3 +305,126 @@ def discipline(ctx, common, programs, label):
                           "a register was freed that was not held, or handed out while held, while compiling this program",
                           {"program": p[:4000], "source": label}, "badfree=0 badalloc=0", o)
     return len(programs), bad
+
+
+# ---------------------------------------------------------------- random control-flow programs (reference-engine differential)
+class Ctl:
+    """statements with every kind of non-local exit - break / continue (plain and labelled), switch fall-through, return and throw
+    through try / catch / finally - around traced expressions; every loop advances its counter first, so every program ends"""
+
+    def __init__(self, rng):
+        self.rng = rng
+        self.n = 0          # trace marker
+        self.loops = []     # [(label or None, kind)]
+        self.fn = 0         # inside a function body (return allowed)
+        self.ids = 0
+
+    def mark(self):
+        self.n += 1
+        return "t(%d);" % self.n
+
+    def cond(self):
+        r = self.rng
+        return r.choice(["a < %d" % r.randrange(4), "(a + b) %% %d === %d" % (r.randrange(2, 4), r.randrange(2)), "b > a", "true", "false",
+                         "t(%d) > 0" % (self.n + 1000), "a++ < 2", "(b = b + 1) < 3", "c === 'x'", "typeof q === 'undefined'"])
+
+    def simple(self):
+        r = self.rng
+        k = r.randrange(7)
+        if k == 0:
+            return "a = a + %d;" % r.randrange(1, 4)
+        if k == 1:
+            return "b += a;"
+        if k == 2:
+            return "c = c + '%s';" % r.choice("xyz")
+        if k == 3:
+            return "a = b %% %d;" % r.randrange(2, 5)
+        return self.mark()
+
+    def exit_stmt(self):
+        r = self.rng
+        opts = ["throw %s;" % r.choice(["a", "'boom'", "new Error('e' + a)", "{code: b}", "undefined", "null"])]
+        if self.fn:
+            opts += ["return %s;" % r.choice(["a", "b + 1", "c", "", "t(%d)" % (self.n + 2000)])] * 2
+        for lab, kind in self.loops:
+            if kind == "loop":
+                opts += ["break;", "continue;"] if lab is None else ["break %s;" % lab, "continue %s;" % lab]
+            elif kind == "switch":
+                opts += ["break;"]
+            else:
+                opts += ["break %s;" % lab]
+        return r.choice(opts)
+
+    def block(self, d, n=None):
+        n = self.rng.randrange(1, 4) if n is None else n
+        return " ".join(self.stmt(d) for _ in range(n))
+
+    def stmt(self, d):
+        r = self.rng
+        k = r.randrange(14) if d > 0 else r.randrange(3)
+        if k < 3:
+            return self.simple()
+        if k == 3:
+            return "if (%s) { %s }" % (self.cond(), self.exit_stmt()) if r.randrange(3) else self.exit_stmt()
+        if k == 4:
+            return "if (%s) { %s } else { %s }" % (self.cond(), self.block(d - 1), self.block(d - 1))
+        if k in (5, 6, 7):
+            self.ids += 1
+            i = "i%d" % self.ids
+            lab = "L%d" % self.ids if r.randrange(3) == 0 else None
+            self.loops.append((lab, "loop"))
+            body = self.block(d - 1)
+            self.loops.pop()
+            n = r.randrange(1, 4)
+            head = ("%s: " % lab) if lab else ""
+            if k == 5:
+                return "%sfor (let %s = 0; %s < %d; %s++) { %s }" % (head, i, i, n, i, body)
+            if k == 6:
+                return "{ let %s = 0; %swhile (%s < %d) { %s++; %s } }" % (i, head, i, n, i, body)
+            return "{ let %s = 0; %sdo { %s++; %s } while (%s < %d); }" % (i, head, i, body, i, n)
+        if k == 8:
+            self.loops.append((None, "switch"))
+            cases = []
+            for v in r.sample([0, 1, 2, 3, "'x'"], r.randrange(1, 4)):
+                cases.append("case %s: %s %s" % (v, self.block(d - 1, r.randrange(0, 3)), r.choice(["break;", "", ""])))
+            if r.randrange(2):
+                cases.insert(r.randrange(len(cases) + 1), "default: %s %s" % (self.block(d - 1, 1), r.choice(["break;", ""])))
+            self.loops.pop()
+            return "switch (%s) { %s }" % (r.choice(["a", "b % 3", "c", "a + b"]), " ".join(cases))
+        if k in (9, 10, 11):
+            tb = self.block(d - 1)
+            form = r.randrange(4)
+            if form == 0:
+                return "try { %s } catch (e) { t(String(e && e.message || e)); %s }" % (tb, self.block(d - 1, r.randrange(0, 3)))
+            if form == 1:
+                return "try { %s } finally { %s }" % (tb, self.block(d - 1, r.randrange(1, 3)))
+            if form == 2:
+                return "try { %s } catch { %s } finally { %s }" % (tb, self.block(d - 1, r.randrange(0, 2)), self.block(d - 1, r.randrange(1, 3)))
+            return "try { %s } catch (e) { t(typeof e); %s } finally { %s }" % (tb, self.block(d - 1, r.randrange(0, 2)), self.block(d - 1, r.randrange(1, 3)))
+        if k == 12:
+            self.ids += 1
+            lab = "B%d" % self.ids
+            self.loops.append((lab, "block"))
+            body = self.block(d - 1)
+            self.loops.pop()
+            return "%s: { %s }" % (lab, body)
+        # a function whose body exits in all those ways; called at once
+        self.ids += 1
+        saved, self.loops = self.loops, []
+        self.fn += 1
+        body = self.block(d - 1, r.randrange(1, 4))
+        self.fn -= 1
+        self.loops = saved
+        return "t('r' + String((function f%d() { %s })()));" % (self.ids, body)
+
+
+def control_programs(rng, tier):
+    n = 1200 if tier == "thorough" else 250
+    out = []
+    for _ in range(n):
+        g = Ctl(rng)
+        body = g.block(rng.randrange(2, 5), rng.randrange(2, 5))
+        out.append("let a = %d, b = %d, c = %s; const tr = []; function t(x) { tr.push(x); return tr.length; } "
+                   "try { %s } catch (e) { t('uncaught:' + String(e && e.message || e)); } out(tr.join(','), a, b, c);"
+                   % (rng.randrange(3), rng.randrange(3), rng.choice(["'x'", "''", "'q'"]), body))
+    return out
